@@ -17,6 +17,8 @@ import ModVerif.Proofs.TieFnTileNew
 import ModVerif.Proofs.TieFnTileHash
 import ModVerif.Proofs.TieFnTileRead
 import ModVerif.Proofs.TlogTH
+import ModVerif.Proofs.TieFnTileServe
+import ModVerif.Proofs.TieFnTileSecure
 namespace ModVerif.Tie.FnTile
 open ModVerif ModVerif.GoRt ModVerif.TieFnTile ModVerif.TieFnTlogInt
 
@@ -228,5 +230,150 @@ example : (Generated.Tile.ReadTileData (H := Bytes) id 80 (toGen ⟨1, 1, 1, 0, 
     rtdOut (H := Bytes) id exReader ⟨1, 1, 1, 0, false⟩ (Tile.readTileData ⟨1, 1, 1, 0, false⟩ (readerOf exReader)) =
       (List.replicate 32 9 ++ List.replicate 32 12, none) := by
   constructor <;> decide +kernel
+
+/-! ### tileHashReader.ReadHashes
+
+The generated function takes the reader `r = {tree: {N, Hash}, tr: {Height, ReadTiles}}` and returns
+`((hashes, err), effLog)` where `effLog` records the arguments of the `SaveTiles` call (if any).  The model is
+`Tile.readHashes node N treeHash h indexes serve` with a per-tile server `serve : Tile → Option (List H)`.
+
+* Hash type: ABSTRACT `H`, `ofBytes : Bytes → H` arbitrary; tile data `data[i]` (flat bytes) is seen by the model as
+  `unflatS ofBytes data[i]` (the 32-byte groups through `ofBytes`; `[]` if `len(data[i])` is not a multiple of 32 — such data
+  fails the width check on both sides, planned tiles having `W ≥ 1`).
+* Tile server: `ServeRel ofBytes RT serve tiles` relates `ReadTiles = RT` and `serve` ON THE PLANNED TILES (the one
+  `ReadTiles` call): `err ≠ nil` ↔ `mapM serve = none`; a result of the wrong length ↔ all-empty tiles (both sides then fail
+  with kind `badTile`); otherwise `mapM serve = some (data.map (unflatS ofBytes))`.  `exists_serve`: for EVERY `RT` there is
+  such a `serve` (`tileHashReader_ReadHashes_tie_any`).
+* Result: `rhOut out gtiles data msg` = (`(hs, nil)` if the model's result is `.ok hs`, else `(nil, msg)`; effect log
+  `[(gtiles, data)]` iff the model's `saved` is `some _`).  The error TEXT `msg` is existentially quantified and constrained
+  by `MsgOK`: it is one of the `fmt.Errorf` texts the code has for the model's error kind (the model merges e.g. the three
+  `HashFromTile` errors and the two `bad result slice` errors into `badTile`); for `Err.reader` it is `ReadTiles`' own error.
+* Range: `N < 2^62` (as in every C10 theorem), `1 ≤ h ≤ 57` (for `h ≥ 58` the byte offsets `… * HashSize` computed — and
+  discarded — by `tileForIndex` overflow int64: the Go code wraps silently, the checked translation reports the overflow;
+  `TileReader.Height` is documented to be at most 30), `len(indexes) < 2^56`; indexes are natural numbers (out-of-range
+  ones are refused on both sides with "indexes not in tree"). -/
+
+section
+variable {H : Type} [DecidableEq H] [Inhabited H] (node : H → H → H) (ofBytes : Bytes → H)
+
+/-- ★ `tileHashReader.ReadHashes`, for every tree size `N < 2^62`, tree hash, tile height `1 ≤ h ≤ 57`, index list, every
+    `ReadTiles` function and every model server related to it on the planned tiles. -/
+theorem tileHashReader_ReadHashes_tie (fuel h N : Nat) (th : H) (idx : List Nat)
+    (RT : List Generated.Tile.Tile → List Bytes × Option String) (serve : Tile.Tile → Option (List H))
+    (h1 : 1 ≤ h) (h57 : h ≤ 57) (hN : N < 2 ^ 62) (hidx : idx.length < 2 ^ 56)
+    (hserve : ServeRel ofBytes RT serve (planTiles h N idx)) (hf : 64 * idx.length + 500 ≤ fuel) :
+    ∃ msg, Generated.Tile.tileHashReader_ReadHashes node ofBytes fuel
+        { tree := { N := (N : Int), Hash := th }, tr := { Height := (h : Int), ReadTiles := RT } } (idx.map Int.ofNat) =
+      .ok (rhOut (Tile.readHashes node N th h idx serve) ((planTiles h N idx).map toGen)
+        (RT ((planTiles h N idx).map toGen)).1 msg) ∧
+      ∀ e, (Tile.readHashes node N th h idx serve).result = .error e → MsgOK (RT ((planTiles h N idx).map toGen)).2 e msg := by
+  have hlen := planTiles_length h N h1 hN idx
+  exact ReadHashes_eq node ofBytes fuel h N th idx RT serve h1 h57 hN hserve (by omega) (by omega)
+
+/-- ★ … and for EVERY `ReadTiles` function there is such a model server: whatever a `TileReader` does, the generated
+    `ReadHashes` behaves like the model against SOME tile server (so every theorem of `Props/C10.lean` that holds against
+    all servers — `readHashes_authenticated`, `error_saves_nothing` — speaks about the generated code). -/
+theorem tileHashReader_ReadHashes_tie_any (fuel h N : Nat) (th : H) (idx : List Nat)
+    (RT : List Generated.Tile.Tile → List Bytes × Option String)
+    (h1 : 1 ≤ h) (h57 : h ≤ 57) (hN : N < 2 ^ 62) (hidx : idx.length < 2 ^ 56) (hf : 64 * idx.length + 500 ≤ fuel) :
+    ∃ (serve : Tile.Tile → Option (List H)) (msg : Option String),
+      ServeRel ofBytes RT serve (planTiles h N idx) ∧
+      Generated.Tile.tileHashReader_ReadHashes node ofBytes fuel
+        { tree := { N := (N : Int), Hash := th }, tr := { Height := (h : Int), ReadTiles := RT } } (idx.map Int.ofNat) =
+      .ok (rhOut (Tile.readHashes node N th h idx serve) ((planTiles h N idx).map toGen)
+        (RT ((planTiles h N idx).map toGen)).1 msg) ∧
+      ∀ e, (Tile.readHashes node N th h idx serve).result = .error e → MsgOK (RT ((planTiles h N idx).map toGen)).2 e msg := by
+  have hnd : (planTiles h N idx).Nodup := by
+    unfold planTiles
+    cases hp : Tile.plan h N idx with
+    | error e => simp
+    | ok p => exact (TileAuth.plan_parents_first h N h1 hN idx p hp).2.2.1
+  obtain ⟨serve, hs⟩ := exists_serve ofBytes RT (planTiles h N idx) hnd
+  obtain ⟨msg, h2, h3⟩ := tileHashReader_ReadHashes_tie node ofBytes fuel h N th idx RT serve h1 h57 hN hidx hs hf
+  exact ⟨serve, msg, hs, h2, h3⟩
+
+end
+
+/-! non-vacuity: the 7-record example log of C10 (`Props.C10.C10_honest_witness`), tile height 2, stored hash 0.  Hashes are
+    the term algebra `TH`; stored hash number `i` travels as the 32 bytes `i, i, …` (`exOfBytes` decodes it), so the tile
+    server `exRT` is honest.  Both sides return the true hash `leaf [0]` and save the three planned tiles. -/
+
+open ModVerif.TlogTH in
+def exRT : List Generated.Tile.Tile → List Bytes × Option String := fun ts =>
+  (ts.map fun t => ((rtdIndexes (ofGen t)).map fun i => List.replicate 32 (UInt8.ofNat i)).flatten, none)
+
+open ModVerif.TlogTH in
+def exOfBytes (b : Bytes) : Tlog.TH := ((store 7)[(b.headD 0).toNat]?).getD Tlog.TH.empty
+
+open ModVerif.TlogTH in
+example :
+    ((Generated.Tile.tileHashReader_ReadHashes Tlog.TH.node exOfBytes 600 ⟨⟨7, root 7⟩, ⟨2, exRT⟩⟩ [0]).toOption.map
+        fun r => (r.1, r.2.map (·.1))) =
+      some (([Tlog.TH.leaf [0]], none), [[⟨2, 1, 0, 1⟩, ⟨2, 0, 1, 3⟩, ⟨2, 0, 0, 4⟩]]) ∧
+    planTiles 2 7 [0] = [⟨2, 1, 0, 1, false⟩, ⟨2, 0, 1, 3, false⟩, ⟨2, 0, 0, 4, false⟩] ∧
+    (let out := Tile.readHashes Tlog.TH.node 7 (root 7) 2 [0]
+        (fun t => (Tile.trueTile (store 7) t));
+      isOk out.result [Tlog.TH.leaf [0]] = true ∧ out.saved.isSome = true) := by
+  decide +kernel
+
+/-- … a forged tile is rejected by both sides ("downloaded inconsistent tile", nothing saved) -/
+def exRTevil : List Generated.Tile.Tile → List Bytes × Option String := fun ts =>
+  (ts.map fun t => ((rtdIndexes (ofGen t)).map fun i =>
+    List.replicate 32 (UInt8.ofNat (if t = ⟨2, 0, 0, 4⟩ ∧ i = 0 then 1 else i))).flatten, none)
+
+open ModVerif.TlogTH in
+example :
+    (Generated.Tile.tileHashReader_ReadHashes Tlog.TH.node exOfBytes 600 ⟨⟨7, root 7⟩, ⟨2, exRTevil⟩⟩ [0]).toOption =
+      some (([], some "downloaded inconsistent tile"), []) := by
+  decide +kernel
+
+/-! ### the C10 security theorems, for the REGENERATED code
+
+`Props.C10.readHashes_authenticated` / `error_saves_nothing` (theorems about the hand model against every tile server)
+composed with `tileHashReader_ReadHashes_tie_any`: statements about `Generated.Tile.tileHashReader_ReadHashes` alone —
+no model function occurs in the conclusions (`Tile.trueTile st t` is the specification's tile content of the log,
+`st[·]?` its stored hashes; `unflatS ofBytes` reads flat tile bytes as hashes). -/
+
+section
+variable {H : Type} [DecidableEq H] [Inhabited H] (leaf : Bytes → H) (node : H → H → H) (empty : H) (ofBytes : Bytes → H)
+
+/-- ★ Against ANY `ReadTiles` function, for the true tree head of a log `D` of fewer than `2^62` records and a
+    collision-free `NodeHash`, tile height `1 ≤ h ≤ 57`: the regenerated `tileHashReader.ReadHashes` terminates (no panic,
+    no int64 overflow); if it returns `err = nil` the hashes are the true stored hashes of the requested positions; and every
+    (tile, data) pair passed to `SaveTiles` (the effect log) is the true tile content. -/
+theorem tileHashReader_ReadHashes_authenticated (D : List Bytes) (st : List H) (hst : Tlog.buildStore leaf node D = .ok st)
+    (hR : D.length < 2 ^ 62) (hcf : ∀ a b c d : H, node a b = node c d → a = c ∧ b = d)
+    (h : Nat) (h1 : 1 ≤ h) (h57 : h ≤ 57) (idx : List Nat) (hidx : idx.length < 2 ^ 56)
+    (RT : List Generated.Tile.Tile → List Bytes × Option String) (fuel : Nat) (hf : 64 * idx.length + 500 ≤ fuel) :
+    ∃ res, Generated.Tile.tileHashReader_ReadHashes node ofBytes fuel
+        { tree := { N := (D.length : Int), Hash := RFC6962.mth node empty (D.map leaf) },
+          tr := { Height := (h : Int), ReadTiles := RT } } (idx.map Int.ofNat) = .ok res ∧
+      (res.1.2 = none → idx.mapM (st[·]?) = some res.1.1) ∧
+      (∀ entry ∈ res.2, entry.2.length = entry.1.length ∧
+        ∀ i (_ : i < entry.1.length) (_ : i < entry.2.length),
+          Tile.trueTile st (ofGen entry.1[i]) = some (unflatS ofBytes entry.2[i])) :=
+  ReadHashes_generated_authenticated leaf node empty ofBytes D st hst hR hcf h h1 h57 idx hidx RT fuel hf
+
+/-- ★ … and for `h ≤ 30`: `err ≠ nil` implies that `SaveTiles` was not called. -/
+theorem tileHashReader_ReadHashes_error_saves_nothing (D : List Bytes) (st : List H)
+    (hst : Tlog.buildStore leaf node D = .ok st) (hR : D.length < 2 ^ 62)
+    (hcf : ∀ a b c d : H, node a b = node c d → a = c ∧ b = d)
+    (h : Nat) (h1 : 1 ≤ h) (h30 : h ≤ 30) (idx : List Nat) (hidx : idx.length < 2 ^ 56)
+    (RT : List Generated.Tile.Tile → List Bytes × Option String) (fuel : Nat) (hf : 64 * idx.length + 500 ≤ fuel) :
+    ∃ res, Generated.Tile.tileHashReader_ReadHashes node ofBytes fuel
+        { tree := { N := (D.length : Int), Hash := RFC6962.mth node empty (D.map leaf) },
+          tr := { Height := (h : Int), ReadTiles := RT } } (idx.map Int.ofNat) = .ok res ∧
+      (res.1.2 ≠ none → res.2 = []) :=
+  ReadHashes_generated_error_saves_nothing leaf node empty ofBytes D st hst hR hcf h h1 h30 idx hidx RT fuel hf
+
+end
+
+/-- non-vacuity of the hypotheses: the 7-record example log has a store, the term algebra is collision free (the
+    conclusions are exercised by the two evaluated examples above: the honest read returns the true hash `leaf [0]`,
+    the forged tile is refused with an empty effect log) -/
+example : (∃ st, Tlog.buildStore Tlog.TH.leaf Tlog.TH.node (TlogTH.recs 7) = .ok st) ∧ (TlogTH.recs 7).length < 2 ^ 62 ∧
+    (∀ a b c d : Tlog.TH, Tlog.TH.node a b = Tlog.TH.node c d → a = c ∧ b = d) := by
+  obtain ⟨st, h1, _⟩ := TlogStore.buildStore_ok Tlog.TH.leaf Tlog.TH.node Tlog.TH.empty (TlogTH.recs 7) (by decide)
+  exact ⟨⟨st, h1⟩, by decide, fun a b c d h => by cases h; exact ⟨rfl, rfl⟩⟩
 
 end ModVerif.Tie.FnTile
